@@ -135,9 +135,10 @@ def may_contain(outer, inner, bounds=None):
 
 
 class Edge:
-    __slots__ = ("dst", "kind", "op", "chain", "dst_ty", "subst", "rsubst", "site")
+    __slots__ = ("dst", "kind", "op", "chain", "dst_ty", "subst", "rsubst", "site", "cs")
 
-    def __init__(self, dst, kind, op, chain=None, dst_ty=None, subst=None, rsubst=None, site=None):
+    def __init__(self, dst, kind, op, chain=None, dst_ty=None, subst=None, rsubst=None, site=None, cs=None):
+        self.cs = cs            # call-string action: ("in", site, callee_body) / ("out", site, callee_body)
         self.dst = dst
         self.kind = kind
         self.op = op
@@ -211,26 +212,26 @@ class Graph:
             return ch[-1][1]
         return self.lty(b, pl["l"])
 
-    def _read_place(self, b, pl, dst, kind, op, dst_ty, site=None, subst=None):
+    def _read_place(self, b, pl, dst, kind, op, dst_ty, site=None, subst=None, cs=None):
         """edges for reading place `pl` into `dst`."""
         bid = b.id
         chain = self._place_chain(b, pl)
         tys = [(k, t) for (k, t, _, _) in chain]
-        self.edge((bid, pl["l"]), Edge(dst, kind, op, tys or None, dst_ty, site=site, subst=subst))
+        self.edge((bid, pl["l"]), Edge(dst, kind, op, tys or None, dst_ty, site=site, subst=subst, cs=cs))
         # index locals
         for l in place_locals(pl)[1:]:
-            self.edge((bid, l), Edge(dst, kind, COMPUTE, None, dst_ty, site=site))
+            self.edge((bid, l), Edge(dst, kind, COMPUTE, None, dst_ty, site=site, cs=cs))
         # field sources: the field itself is the tainted thing, the rest of the chain applies
         for i, (k, t, adt, n) in enumerate(chain):
             if k == "f" and adt and n is not None:
                 self.field_reads[(adt, n)] += 1
                 rest = tys[i + 1:]
                 self.edge(("FIELD", adt, n), Edge(dst, kind, FIELDSRC if op != SHAPE else "fieldshape",
-                                                  [("src", t)] + rest, dst_ty, site=site, subst=subst))
+                                                  [("src", t)] + rest, dst_ty, site=site, subst=subst, cs=cs))
 
-    def _read_op(self, b, op, dst, kind, opk, dst_ty, site=None, subst=None):
+    def _read_op(self, b, op, dst, kind, opk, dst_ty, site=None, subst=None, cs=None):
         if op["k"] in ("copy", "move"):
-            self._read_place(b, op["pl"], dst, kind, opk, dst_ty, site, subst)
+            self._read_place(b, op["pl"], dst, kind, opk, dst_ty, site, subst, cs)
 
     # ------------------------------------------------------------------ construction
     def _build_body(self, b):
@@ -314,15 +315,19 @@ class Graph:
                 env = (kid, 1)
                 kb = self.facts.bodies[kid]
                 env_ty = kb.locals[1]["ty"] if len(kb.locals) > 1 else None
+                cin = ("in", ("env", kid), kid)
+                cout = ("out", ("env", kid), kid)
                 for op in rv["ops"]:
-                    self._read_op(b, op, env, DATA, MOVE, env_ty)
+                    self._read_op(b, op, env, DATA, MOVE, env_ty, cs=cin)
                     if op["k"] in ("copy", "move") and self._mutb(b, op["pl"]["l"]):
-                        self.edge(env, Edge((bid, op["pl"]["l"]), ALIAS, MOVE, None, self.lty(b, op["pl"]["l"])))
-                self.edge(d, Edge(env, ALIAS, MOVE, None, env_ty))
-                self.edge(env, Edge(d, ALIAS, MOVE, None, dst_ty))
+                        self.edge(env, Edge((bid, op["pl"]["l"]), ALIAS, MOVE, None, self.lty(b, op["pl"]["l"]), cs=cout))
+                self.edge(d, Edge(env, ALIAS, MOVE, None, env_ty, cs=cin))
+                self.edge(env, Edge(d, ALIAS, MOVE, None, dst_ty, cs=cout))
         else:
             # binop / unop / cast / other: a computation
             opk = COMPUTE
+            if k == "unop" and rv.get("op") == "PtrMetadata":
+                opk = SHAPE   # slice length
             if k == "cast" and not rv.get("ck", "").startswith(("IntToInt", "FloatToInt", "IntToFloat", "FloatToFloat")):
                 opk = MOVE   # pointer / unsize coercions keep the value
             for op in rv.get("ops", []):
@@ -350,9 +355,8 @@ class Graph:
         self._ctrl_into(b, ctrl_ops, ctl, d, dst_ty)
         args = t["args"]
         arg_loc = [a["pl"]["l"] if a["k"] in ("copy", "move") else None for a in args]
-        target = self.facts.call_target(t, self.ctx_adt)
-        if target is not None and target not in self.scope:
-            target = None
+        targets = [x for x in self.facts.call_targets(t, self.ctx_adt) if x in self.scope]
+        target = targets[0] if targets else None
         closures = []
         for a, l in zip(args, arg_loc):
             if l is not None:
@@ -366,36 +370,43 @@ class Graph:
         subst = [tuple(x) for x in t.get("subst", []) if x[0] != x[1]] or None
 
         def ctrl_to_ctl(kid):
-            self.edge(ctl, Edge((kid, -1), CTRL, FRESH))
+            cin = ("in", site, kid)
+            self.edge(ctl, Edge((kid, -1), CTRL, FRESH, cs=cin))
             for op in ctrl_ops:
-                self._read_op(b, op, (kid, -1), CTRL, SHAPE, None)
+                self._read_op(b, op, (kid, -1), CTRL, SHAPE, None, cs=cin)
 
-        if target is not None:
+        for target in targets:
             tb = self.facts.bodies[target]
             for j, a in enumerate(args):
                 if j + 1 > tb.arg_count:
                     break
                 p = (target, j + 1)
                 pty = tb.locals[j + 1]["ty"]
+                cin = ("in", site, target)
+                cout = ("out", site, target)
                 if a["k"] in ("copy", "move"):
-                    self._read_place(b, a["pl"], p, DATA, MOVE, pty, site, subst)
+                    self._read_place(b, a["pl"], p, DATA, MOVE, pty, site, subst, cs=cin)
                     if self._mutb(b, a["pl"]["l"]):
-                        self.edge(p, Edge((bid, a["pl"]["l"]), ALIAS, MOVE, None, self.lty(b, a["pl"]["l"]), rsubst=subst))
+                        self.edge(p, Edge((bid, a["pl"]["l"]), ALIAS, MOVE, None, self.lty(b, a["pl"]["l"]), rsubst=subst, cs=cout))
                         self._ctrl_into(b, ctrl_ops, ctl, (bid, a["pl"]["l"]), self.lty(b, a["pl"]["l"]))
                 elif a["k"] == "const" and a.get("fn") in self.scope:
                     self.edge((a["fn"], 0), Edge(p, DATA, MOVE, None, pty))
-            self.edge((target, 0), Edge(d, DATA, MOVE, None, dst_ty, rsubst=subst, site=site))
+            self.edge((target, 0), Edge(d, DATA, MOVE, None, dst_ty, rsubst=subst, site=site, cs=("out", site, target)))
             if self._mutb(b, dstp["l"]):
-                self.edge(d, Edge((target, 0), ALIAS, MOVE, None, tb.locals[0]["ty"], subst=subst))
+                self.edge(d, Edge((target, 0), ALIAS, MOVE, None, tb.locals[0]["ty"], subst=subst, cs=("in", site, target)))
             ctrl_to_ctl(target)
+        if targets:
+            pass
         elif direct_closure is not None:
             kb = self.facts.bodies[direct_closure]
+            cin = ("in", site, direct_closure)
+            cout = ("out", site, direct_closure)
             for j, a in enumerate(args):
                 for p in range(1, kb.arg_count + 1):
-                    self._read_op(b, a, (direct_closure, p), DATA, "hof", kb.locals[p]["ty"], site)
+                    self._read_op(b, a, (direct_closure, p), DATA, "hof", kb.locals[p]["ty"], site, cs=cin)
             if arg_loc and arg_loc[0] is not None:
-                self.edge((direct_closure, 1), Edge((bid, arg_loc[0]), ALIAS, MOVE, None, self.lty(b, arg_loc[0])))
-            self.edge((direct_closure, 0), Edge(d, DATA, MOVE, None, dst_ty, site=site))
+                self.edge((direct_closure, 1), Edge((bid, arg_loc[0]), ALIAS, MOVE, None, self.lty(b, arg_loc[0]), cs=cout))
+            self.edge((direct_closure, 0), Edge(d, DATA, MOVE, None, dst_ty, site=site, cs=cout))
             ctrl_to_ctl(direct_closure)
         else:
             name = last_seg(t.get("callee") or "")
@@ -420,7 +431,7 @@ class Graph:
                     self._read_op(b, op, OUTCOME, CTRL, SHAPE, None)
                 self.sink_sites.append((bid, i, "foreign-abort:" + name))
         for kid, l, is_closure in closures:
-            if kid == target:
+            if kid in targets:
                 continue
             kb = self.facts.bodies[kid]
             first = 2 if is_closure else 1
@@ -428,14 +439,14 @@ class Graph:
                 if arg_loc[j] == l and l is not None:
                     continue
                 for p in range(first, kb.arg_count + 1):
-                    self._read_op(b, a, (kid, p), DATA, "hof", kb.locals[p]["ty"], site)
-            self.edge((kid, 0), Edge(d, DATA, "foreign", None, dst_ty, site=site))
+                    self._read_op(b, a, (kid, p), DATA, "hof", kb.locals[p]["ty"], site, cs=("in", site, kid))
+            self.edge((kid, 0), Edge(d, DATA, "foreign", None, dst_ty, site=site, cs=("out", site, kid)))
             for m in [x for x in arg_loc if x is not None and self._mutb(b, x)]:
-                self.edge((kid, 0), Edge((bid, m), DATA, "foreign", None, self.lty(b, m)))
+                self.edge((kid, 0), Edge((bid, m), DATA, "foreign", None, self.lty(b, m), cs=("out", site, kid)))
             if is_closure:
                 env_ty = kb.locals[1]["ty"] if len(kb.locals) > 1 else None
-                self.edge((bid, l), Edge((kid, 1), DATA, MOVE, None, env_ty))
-                self.edge((kid, 1), Edge((bid, l), ALIAS, MOVE, None, self.lty(b, l)))
+                self.edge((bid, l), Edge((kid, 1), DATA, MOVE, None, env_ty, cs=("in", ("env", kid), kid)))
+                self.edge((kid, 1), Edge((bid, l), ALIAS, MOVE, None, self.lty(b, l), cs=("out", ("env", kid), kid)))
             ctrl_to_ctl(kid)
 
     # ------------------------------------------------------------------ typed propagation
@@ -466,8 +477,15 @@ class Graph:
         op = e.op
         # 1. read-side projection chain
         if op in (FIELDSRC, "fieldshape"):
-            whole = True
-            cur = e.chain[0][1]
+            fty = e.chain[0][1]
+            if ty is None or fty is None or strip_refs(fty) == strip_refs(ty):
+                whole = True
+                cur = fty
+            elif may_contain(fty, ty):
+                whole = False       # only the payload of type `ty` inside the field is the tainted thing
+                cur = ty
+            else:
+                return []
             chain = e.chain[1:]
             op = MOVE if op == FIELDSRC else SHAPE
         else:
@@ -536,23 +554,47 @@ class Graph:
             return [dty]
         return [dty]
 
-    def reach(self, starts, cut=None, want=None, typed=True, kinds=None):
-        """forward reachability over typed states. starts: nodes, or ("STATE", node, ty) triples.
-        cut(a, b, kind) -> True drops the edge. Returns parent map over states (node, ty)."""
+    K_LIMIT = 4
+
+    def _stack_step(self, stack, cs):
+        """call-string matching (k-limited): returns new stack or None when the exit does not match."""
+        if cs is None:
+            return stack
+        kind, site, body = cs
+        if kind == "in":
+            ns = stack + ((site, body),)
+            if len(ns) > self.K_LIMIT:
+                ns = ns[-self.K_LIMIT:]
+            return ns
+        # out
+        if not stack:
+            return stack
+        tsite, tbody = stack[-1]
+        if tbody != body:
+            # we are inside `body` without a frame for it (entered below the k-limit horizon): unbalanced exit
+            return stack
+        if tsite == site or (isinstance(site, tuple) and site[0] == "env") or (isinstance(tsite, tuple) and tsite[0] == "env"):
+            return stack[:-1]
+        return None
+
+    def reach(self, starts, cut=None, want=None, typed=True, kinds=None, context=True):
+        """forward reachability over typed, call-string-qualified states.
+        starts: nodes, or ("STATE", node, ty) triples. cut(a, b, kind) -> True drops the edge.
+        Returns parent map over states (node, ty, stack)."""
         parent = {}
         dq = deque()
         for s in starts:
             if isinstance(s, tuple) and len(s) == 3 and s[0] == "STATE":
-                st = (s[1], s[2])
+                st = (s[1], s[2], ())
             else:
-                st = (s, None)
+                st = (s, None, ())
             if st not in parent:
                 parent[st] = None
                 dq.append(st)
         goal = None
         while dq:
             st = dq.popleft()
-            n, ty = st
+            n, ty, stack = st
             if want is not None and n == want:
                 goal = st
                 break
@@ -561,8 +603,14 @@ class Graph:
                     continue
                 if cut is not None and cut(n, e.dst, e.kind):
                     continue
+                nstack = self._stack_step(stack, e.cs) if context else ()
+                if nstack is None:
+                    continue
                 for nty in self.step(n, ty, e, typed):
-                    ns = (e.dst, None if e.dst == OUTCOME else nty)
+                    if e.dst == OUTCOME:
+                        ns = (OUTCOME, None, ())
+                    else:
+                        ns = (e.dst, nty, nstack)
                     if ns not in parent:
                         parent[ns] = st
                         dq.append(ns)
@@ -570,9 +618,9 @@ class Graph:
         return parent
 
     def reaches(self, parent, node):
-        for (n, ty) in parent:
-            if n == node:
-                return (n, ty)
+        for st in parent:
+            if st[0] == node:
+                return st
         return None
 
     def path(self, parent, state):
@@ -623,16 +671,16 @@ def elem_sets(g, base):
                     sets[bid] |= add
                     changed = True
             for _, t in b.calls():
-                tgt = f.call_target(t, g.ctx_adt)
-                if tgt is None or tgt not in sets:
-                    continue
-                sub = t.get("subst")
-                if not sub:
-                    continue
-                for formal, actual in sub:
-                    if actual in sets[bid] and formal not in sets[tgt]:
-                        sets[tgt].add(formal)
-                        changed = True
+                for tgt in f.call_targets(t, g.ctx_adt):
+                    if tgt not in sets:
+                        continue
+                    sub = t.get("subst")
+                    if not sub:
+                        continue
+                    for formal, actual in sub:
+                        if actual in sets[bid] and formal not in sets[tgt]:
+                            sets[tgt].add(formal)
+                            changed = True
     return sets
 
 
